@@ -337,6 +337,9 @@ pub fn run(tier: Tier) -> i32 {
         ("unknown-device".into(), ".device ATmega8 + 1\nnop\n".into()),
         ("unknown-device".into(), ".device r16\nnop\n".into()),
         ("unknown-device".into(), ".device low(ATmega8)\nnop\n".into()),
+        // two names on one line select two devices
+        ("second-device".into(), ".device ATmega48, ATmega88\nnop\n".into()),
+        ("second-device".into(), ".device ATmega48, ATmega48\nnop\n".into()),
     ];
     for (a, b) in [("ATmega48", "ATmega48"), ("ATmega48", "ATmega8"), ("ATtiny11", "ATmega2560"), ("ATmega2560", "ATtiny11")] {
         extra.push(("second-device".into(), format!(".device {}\n.device {}\nnop\n", a, b)));
